@@ -231,6 +231,19 @@ def run(ctx, rep):
                    'write_all is followed by %s on every Ok path' % short(flushes[0].name) if bad is None else
                    bad + ': tokio::fs::File finishes the write in a background task after the handle is dropped, so two consecutive journal appends (each opening its own handle) can reach the file in the opposite order and a write error is lost')
 
+    # ------------------------------------------------------------ R11.m framing of an encrypted command
+    rep.rule('R11.m', 'an encrypted command is re-framed as the loader reads it: command code (the first 4 bytes of the clear command), length of the ciphertext, ciphertext — in this order, into one buffer', floor=3, analysis='A11 call-argument forms')
+    import forms as forms_
+    forms_.check_call_args(ctx, rep, 'R11.m', {FILESTATE_APPLY: {
+        'BufMut::put_u32_le': ['re:^BytesMut::with_capacity\\(.*\\), Buf::get_u32_le\\(Bytes::slice\\(.*Range::Range\\{start: 0, end: 4\\}\\)\\)$',
+                               're:^BytesMut::with_capacity\\(.*\\), Vec::len\\(EncryptorKind::encrypt\\(self\\.encryptor, .*\\)\\)$'],
+        'Extend>::extend': ['re:^BytesMut::with_capacity\\(.*\\), EncryptorKind::encrypt\\(self\\.encryptor, Bytes::slice\\(.*Range::Range\\{start: 8, end: .*$'],
+    }}, skip_self=False, cd=2)
+    ab_ = ctx.fn_body(FILESTATE_APPLY)
+    seq = [c for c in ab_.calls if is_user_call(c) and (c.name.endswith('BufMut::put_u32_le') or c.name.endswith('Extend>::extend'))]
+    order_ok = len(seq) == 3 and [c.name.split('::')[-1] for c in seq] == ['put_u32_le', 'put_u32_le', 'extend'] and ab_.dominates(seq[0].bb, seq[1].bb) and ab_.dominates(seq[1].bb, seq[2].bb)
+    rep.ob('R11.m', FILESTATE_APPLY, 'code, length, ciphertext in order', order_ok, seq[0].where() if seq else None, None if order_ok else 'the encrypted command is no longer framed as code, length, ciphertext')
+
 
 def apply_is_self_serialised(ctx):
     """FileState::apply owns a MutexGuard local that is created before the first counter access and not dropped before the last"""
